@@ -2,13 +2,14 @@ pub mod c01;
 pub mod c02;
 pub mod c03;
 pub mod c15;
+pub mod c16;
 pub mod c17;
 pub mod c18;
 
 use crate::engine::Property;
 
 pub fn all() -> Vec<Property> {
-    vec![c01::property(), c02::property(), c03::property(), c15::property(), c17::property(), c18::property()]
+    vec![c01::property(), c02::property(), c03::property(), c15::property(), c16::property(), c17::property(), c18::property()]
 }
 
 pub fn by_id(id: &str) -> Option<Property> {
